@@ -328,10 +328,37 @@ def check_struct_operand(sh):
                      case=("structop-mirror", k)); return
 
 
+def check_rejected_assignments(sh):
+  """an assignment that is REFUSED (int out of range, Bits of another width) leaves the object as it was: the value, and the pending
+  value of an earlier legal <<= that the next flip commits"""
+  from pymtl3.datatypes import mk_bits
+  rng = sh.rng("rejected")
+  for k in range(60):
+    n = rng.choice([1, 2, 8, 16, 64, 65, 300])
+    B = mk_bits(n); a = rng.getrandbits(n); b = rng.getrandbits(n)
+    bad = rng.choice([1 << n, (1 << n) + rng.getrandbits(4), -(1 << (n - 1)) - 1, mk_bits(n + 1)(1), mk_bits(max(1, n - 1))(0) if n > 1 else mk_bits(2)(1)])
+    for how in ("ilshift", "imatmul"):
+      x = B(a)
+      x <<= b                      # a legal pending value
+      raised = False
+      try:
+        if how == "ilshift": x <<= bad
+        else: x @= bad
+      except (ValueError, TypeError): raised = True
+      sh.count("rejected_assignments_checked")
+      if not raised:
+        sh.violation("out-of-range-assignment-accepted", {"nbits": n, "operator": how, "operand": repr(bad)}, case=("rejected", k, how)); return
+      now = int(x); x._flip(); after = int(x)
+      if now != a or after != b:
+        sh.violation("refused-assignment-changed-the-object", {"nbits": n, "operator": "<<=" if how == "ilshift" else "@=", "refused_operand": repr(bad), "value_before": hex(a), "pending_before": hex(b),
+                     "value_after_the_refusal": hex(now), "value_after_the_next_flip": hex(after)}, case=("rejected", k, how)); return
+
+
 def run_shard(sh):
   bitsmon.install()
   kind = sh.params["kind"]
   if sh.idx == 0: check_struct_operand(sh)
+  if sh.idx == 1: check_rejected_assignments(sh)
   {"exh": run_exh, "rand": run_rand, "sim": run_sim}[kind](sh)
   cells = sum(1 for k in bitsmon.STATS if k.startswith("cell:"))
   bitsmon.drain(sh, mech=None)
